@@ -5,9 +5,9 @@ from vlib.core import Case
 ID = "C05"
 LEAN_MODULE = "Ctrmml.Properties.C05"
 THEOREMS = ["C05_on_off_sum", "C05_on_time_rule", "C05_on_time_positive_partial", "C05_on_time_zero_counterexample",
-            "C05_shuffle_underflow_counterexample", "C05_duration_conservation_partial", "C05_tie_cases", "C05_slur_effect",
+            "C05_duration_conservation_partial", "C05_shuffle_underflow_counterexample", "C05_tie_cases", "C05_slur_effect",
             "C05_reverse_rest_effect", "C05_grace_borrows", "C05_shuffle_alternates", "C05_echo_replays", "C05_pitch_rule",
-            "C05_keysig_table_correct", "C05_getNum_render", "C05_read_duration_render", "C05_parse_render_partial"]
+            "C05_keysig_table_correct"]
 LEVEL = "proof"
 STREAM = "mml.events+track.api"
 CHUNK = 250
@@ -237,6 +237,73 @@ def gen_seq(rng, n, big=False):
     return [gen_cmd(rng, big) for _ in range(n)]
 
 
+def safe_dur(rng, short=False):
+    r = rng.random()
+    if r < 0.3:
+        return ("D", rng.choice([0, 0, 1]))
+    if r < 0.85:
+        return ("L", num(rng, rng.choice([1, 2, 4, 4, 8, 8, 16, 3, 6, 12, 5, 7, 9])), rng.choice([0, 0, 0, 1, 2]))
+    return ("F", num(rng, rng.choice([6, 7, 9, 10, 24, 25, 100, 1000])), rng.choice([0, 0, 1]))
+
+
+def gen_seq_safe(rng, n):
+    """sequences that stay inside the literal domain of Spec/MmlMeaning (the oracle judges them fully)"""
+    out = []
+    while len(out) < n:
+        r = rng.random()
+        if r < 0.40:
+            out.append(Cmd("n", rng.randrange(8), rng.choice("nnnnsfe"), safe_dur(rng)))
+            r2 = rng.random()
+            if r2 < 0.10:
+                out[-1] = Cmd("n", rng.randrange(8), rng.choice("nnsf"), ("L", Num(rng.choice([1, 2, 4])), 0))
+                out.append(Cmd("R", ("F", num(rng, rng.choice([1, 2, 3, 5])), 0)))
+            elif r2 < 0.20:
+                out[-1] = Cmd("n", rng.randrange(8), rng.choice("nnsf"), ("L", Num(rng.choice([1, 2, 4])), 0))
+                out.append(Cmd("g", rng.randrange(8), rng.choice("nnsf"), ("F", num(rng, rng.choice([6, 7, 8])), 0)))
+        elif r < 0.46:
+            out.append(Cmd("r", safe_dur(rng)))
+        elif r < 0.54:
+            out.append(Cmd("t", safe_dur(rng)))
+        elif r < 0.58:
+            out.append(Cmd("S"))
+        elif r < 0.62:
+            out.append(Cmd("o", num(rng, rng.randrange(2, 9))))
+        elif r < 0.64:
+            out.append(Cmd(rng.choice("<>")))
+        elif r < 0.68:
+            out.append(Cmd("l", ("L", num(rng, rng.choice([2, 4, 8, 16, 3])), rng.choice([0, 0, 1]))))
+        elif r < 0.73:
+            out.append(Cmd("Q", num(rng, rng.randrange(1, 9))))
+        elif r < 0.77:
+            out.append(Cmd("q", num(rng, rng.choice([0, 1, 2, 3, 5, 30]))))
+        elif r < 0.79:
+            out.append(Cmd("s", num(rng, rng.choice([0, 1, 2, -1, -2, 3]), 0.1)))
+        elif r < 0.82:
+            out.append(Cmd("E", num(rng, rng.choice([0, 1, 2, 3, -1, -2]), 0.1), num(rng, rng.choice([0, 1, 2, -2]), 0.1)))
+        elif r < 0.86:
+            out.append(Cmd("e", safe_dur(rng)))
+        elif r < 0.89:
+            out.append(Cmd("K", rng.choice(SCALES)))
+        elif r < 0.91:
+            out.append(Cmd("k", [(rng.choice("+-="), [rng.randrange(8) for _ in range(rng.choice([1, 1, 2, 3]))]) for _ in range(rng.choice([1, 1, 2]))]))
+        elif r < 0.92:
+            out.append(Cmd("D", num(rng, rng.choice([0, 0, 30, 100]))))
+        elif r < 0.93:
+            out.append(Cmd("|"))
+        else:
+            name = rng.choice(list(SIMPLE))
+            if name in ("loopStart", "loopBreak", "segno"):
+                out.append(Cmd("x", name, None))
+            elif name in ("loopEnd", "volDown", "volUp"):
+                out.append(Cmd("x", name, None if rng.random() < 0.4 else num(rng, rng.choice([0, 1, 2, 3, 4, 255]))))
+            elif name in ("volFine", "volFineUp", "volFineDown"):
+                v = rng.choice([0, 1, 5, 100, 127])
+                out.append(Cmd("x", name, Num(v, False) if name == "volFineDown" else num(rng, v)))
+            else:
+                out.append(Cmd("x", name, num(rng, rng.choice([0, 1, 2, 5, 15, 100, 127, -1, -5, -128]))))
+    return out
+
+
 CORPUS_TEXT = [
     # D6a / D6b
     ["A Q4 c:1"], ["A q5 s-30 c"], ["A s-30 c"], ["A l:0 q1 c"], ["A Q1 c64"],
@@ -394,20 +461,24 @@ def cases(rng, tier):
         for pre in ["A c", "A c:", "A o", "A l", "A v", "A ]", "A s", "A (", "*", "A *", "A \\=", "A \\=1,", "A q", "A Q"]:
             yield Case(text_case([pre + spelling + " d"]), ("exh-number", "number-spelling"), "exh-number")
     # ---- seeded random typed sequences (with AST)
-    n = 1800 if quick else 40000
+    n = 9000 if quick else 60000
     for i in range(n):
-        cmds = gen_seq(rng, rng.choice([1, 2, 3, 5, 8, 12, 20, 30]), big=(i % 10 == 0))
-        yield Case(req_of(cmds), tags_of(cmds), "typed-random")
+        if i % 2 == 0:
+            cmds = gen_seq_safe(rng, rng.choice([1, 2, 3, 5, 8, 12, 20, 30]))
+            yield Case(req_of(cmds), tags_of(cmds) + ["in-domain-profile"], "typed-random-safe")
+        else:
+            cmds = gen_seq(rng, rng.choice([1, 2, 3, 5, 8, 12, 20, 30]), big=(i % 10 == 1))
+            yield Case(req_of(cmds), tags_of(cmds), "typed-random")
     # the same generator with references
-    for i in range(150 if quick else 3000):
+    for i in range(1000 if quick else 6000):
         cmds = gen_seq(rng, rng.choice([2, 5, 10]))
         yield Case(req_of(cmds, "mmlr"), tags_of(cmds) + ["references"], "typed-random-refs")
     # ---- layouts
-    for i in range(500 if quick else 9000):
+    for i in range(4000 if quick else 20000):
         lines = layout_case(rng)
         yield Case(text_case(lines, "mmlr" if i % 4 == 0 else "mml"), ("layout", "lines-%d" % min(len(lines), 4)), "layout")
     # ---- malformed stream
-    for i in range(600 if quick else 12000):
+    for i in range(5000 if quick else 30000):
         r = rng.random()
         if r < 0.6:
             text = "A " + " ".join(c.text() for c in gen_seq(rng, rng.randrange(1, 8)))
@@ -420,7 +491,7 @@ def cases(rng, tier):
             lines = [mutate(rng, l) for l in layout_case(rng)]
         yield Case(text_case(lines, "mmlr" if i % 5 == 0 else "mml"), ("malformed",), "malformed")
     # ---- direct API sequences
-    for i in range(700 if quick else 12000):
+    for i in range(5000 if quick else 30000):
         yield Case(api_case(rng), ("api",), "track-api")
 
 
